@@ -532,7 +532,7 @@ MEM_LOOPS = {"memcpy.0": 9, "memcpy.1": 9, "memcpy.2": 2, "memset.0": 9, "memset
 
 @prop("C17",
       functions=["compactCells", "areNeighborCells", "gridDisk", "gridDiskDistances", "_gridDiskDistancesInternal", "polygonToCellsExperimental", "maxPolygonToCellsSizeExperimental", "iterInitPolygonCompact", "iterStepPolygonCompact", "iterDestroyPolygonCompact"],
-      bounds={"quick": "every failure schedule (symbolic bit per allocation) of: compactCells on 3 arbitrary words; areNeighborCells on every neighbour pair of res 0-1; gridDisk/gridDiskDistances k=1 on every cell of res 0-1; polygonToCellsExperimental / maxPolygonToCellsSizeExperimental on triangles with 0-1 hole, any flags/resolution, geometry over-approximated",
+      bounds={"quick": "every failure schedule (symbolic bit per allocation) of: compactCells on 3 arbitrary words; areNeighborCells on every neighbour pair of res 0-1; gridDisk/gridDiskDistances k=1 on every cell of res 0-1; polygonToCellsExperimental / maxPolygonToCellsSizeExperimental on polygons of 0-3 vertices with 0-1 hole, any flags/resolution, geometry over-approximated",
               "thorough": "neighbour pairs and disks at res 0-3, arbitrary-origin disks at res 2, maxPolygonToCellsSizeExperimental"},
       outside="k >= 2, larger sets and polygons; legacy polygonToCells beyond a size estimate of 2 cells and one seed",
       assumptions=["H3_ALLOC_PREFIX allocator = harness shim; a non-failing allocation returns a fresh block (CBMC malloc/calloc)", "S-GEO: cellToLatLng, cellToBoundary, latLngToCell, cellToBBox and the polygon predicates return arbitrary values in the polygon jobs"],
@@ -563,7 +563,7 @@ def c17(tier):
     PS = {"h3Index": ["cellToLatLng", "cellToBoundary", "latLngToCell"], "polyfill": ["cellToBBox"], "polygon": ["pointInsidePolygon", "cellBoundaryInsidePolygon", "cellBoundaryCrossesPolygon"]}
     PL = {"iterStepPolygonCompact.0": 5, "nextCell.0": 4, "polygonToCellsExperimental.0": 4, "maxPolygonToCellsSizeExperimental.0": 4, "maxPolygonToCellsSizeExperimental.1": 5, "bboxesFromGeoPolygon.0": 3, "bboxFromGeoLoop.0": 5, "iterStepChild.0": 5, "harness.0": 4, "setH3Index.0": 4}
     for nh in (0, 1):
-      js += with_witness(al("polyexp_h%d" % nh, ["-DPOLYEXP", "-DNH=%d" % nh], unwind=5, us=PL, stubs=PS, est=200, mem="M", timeout=2400, bound="triangle + <=1 hole, res <= 2 (incl. negative), any flags, capacity 2, <= 3 iterator steps"))
+      js += with_witness(al("polyexp_h%d" % nh, ["-DPOLYEXP", "-DNH=%d" % nh], unwind=5, us=PL, stubs=PS, est=200, mem="M", timeout=2400, bound="outer loop of 0-3 vertices (0 = empty polygon) + <=1 hole, res <= 2 (incl. negative), any flags, capacity 2, <= 3 iterator steps"))
       PSL = {"h3Index": ["cellToLatLng", "cellToBoundary", "latLngToCell"], "polyfill": ["cellToBBox"], "polygon": ["pointInsidePolygon", "cellBoundaryInsidePolygon", "cellBoundaryCrossesPolygon"], "algos": ["maxPolygonToCellsSize", "_getEdgeHexagons", "gridDisk"]}
       # loop bounds of the flood fill for a 2-slot table: holes 2, re-zero 3, probe <= numHexagons+2, ring 7, found <= 2, rounds <= 3
       PLL = {"polygonToCells.0": 3, "polygonToCells.1": 4, "polygonToCells.2": 5, "polygonToCells.3": 8, "polygonToCells.4": 4, "polygonToCells.5": 4, "polygonToCells.6": 4}
@@ -571,7 +571,7 @@ def c17(tier):
       j = al("polylegacy_h%d" % nh, ["-DPOLYLEGACY", "-DNH=%d" % nh, "-DNHEX=2"], unwind=5, us=PLL, stubs=PSL, est=100, mem="M", timeout=2400, bound="legacy polygonToCells: triangle + %d hole(s), size estimate 2, edge tracer seeds nothing (allocation prologue, tracer errors, epilogue), every failure schedule" % nh)
       js += with_witness(j) if nh == 0 else [j]
       # polylegacy with a seed cell and arbitrary rings (flood fill over a 1- or 2-slot table) was probed three times: 18-30 GB, no verdict - not registered
-      js += with_witness(al("polymax_h%d" % nh, ["-DPOLYMAX", "-DNH=%d" % nh], unwind=5, us=PL, stubs=PS, est=400, mem="L", timeout=2400, tier="thorough", bound="triangle + <=1 hole, res <= 2 (incl. negative), any flags, <= 3 iterator steps"))
+      js += with_witness(al("polymax_h%d" % nh, ["-DPOLYMAX", "-DNH=%d" % nh], unwind=5, us=PL, stubs=PS, est=400, mem="L", timeout=2400, tier="thorough", bound="outer loop of 0-3 vertices + <=1 hole, res <= 2 (incl. negative), any flags, <= 3 iterator steps"))
     return js
 
 
@@ -671,7 +671,9 @@ def c06(tier):
         j = J("small3_r%d" % r, "C06_compact.c", ["-DSMALL", "-DN=3", "-DRES=%d" % r], unwind=17, us=CPL, est=40, mem="M", bound="3 distinct valid cells of res %d" % r)
         js += with_witness(j) if r == 5 else [j]
     js.append(J("small5_r3", "C06_compact.c", ["-DSMALL", "-DN=5", "-DRES=3"], unwind=17, us=CPL, est=200, mem="M", tier="thorough", timeout=2400, bound="5 distinct valid cells of res 3"))
-    # complete child families were probed three times (symbolic sizes, constant sizes, fixed-size allocator shim): 9-30 GB, no verdict - not registered
+    # complete child families were probed five times (symbolic sizes, constant sizes, fixed-size allocator shim; harness mode FAMILYC: CONCRETE parent with one
+    # symbolic foreign cell, and concrete parent with only the rotation symbolic): 9-30 GB, no verdict - not registered. After the first round the number of
+    # remaining cells is symbolic for CBMC, so every `parent % numRemainingHexes` of the later rounds is a 64-bit symbolic divider over symbolic heap indexes
     for r in (0, 7, 14):
         j = J("cap_r%d" % r, "C06_compact.c", ["-DCAP", "-DRES=%d" % r], unwind=17, us=CPL, est=60, mem="M", bound="2 valid cells of res %d, capacity 0-14, target res <= %d" % (r, r + 1))
         js += with_witness(j) if r == 7 else [j]
